@@ -86,6 +86,34 @@ def ref_wiring(check, proj):
         check.record("REF-WIRING", f.qualname, okb, "%s() returns its own side's state" % nm, f.loc(), key=nm)
 
 
+def integ_order(check, proj):
+    from .c05 import explicit_classes
+    from ..affine import run_step
+    from .. import rk
+    for c in explicit_classes(proj):
+        name = c.name
+        stepf = proj.resolve(c, "step")
+        loc = stepf.loc() if stepf else c.loc()
+        if name not in rk.NOMINAL_ORDER:
+            check.undecided("INTEG-ORDER", c.qualname, "integrator class unknown to the checker's table", loc)
+            continue
+        try:
+            ai, outs = run_step(proj, c)
+            T = rk.extract(outs[0], name)
+        except AnalysisError as e:
+            check.undecided("INTEG-ORDER", c.qualname, "abstract interpretation failed: %s" % e, loc)
+            continue
+        if T.problems:
+            check.violation("INTEG-ORDER", c.qualname, T.problems[0][1], loc, key="tableau")
+            continue
+        order = rk.NOMINAL_ORDER[name]
+        bad = [(cn, lhs) for cn, lhs, rhs in rk.order_conditions(T.A, T.b, order) if lhs != rhs]
+        if bad:
+            check.violation("INTEG-ORDER", c.qualname, "nominal order %d is not reached: condition %s fails (lhs = %s); the time error caps the observed convergence order" % (order, bad[0][0], bad[0][1]), loc, key=bad[0][0])
+        else:
+            check.ok("INTEG-ORDER", c.qualname, "order conditions up to the nominal order %d hold exactly" % order, loc)
+
+
 def body(check):
     proj = check.proj
     check.explanation = ("static analysis, PREMISE LEVEL: the circulant operator of linear convection decoded from the code (STN + "
@@ -134,3 +162,14 @@ def body(check):
         if o.rule == "KAPPA-STENCIL":
             o.rule = "ORDER-CIRCULANT"
     check.guarded("REF-WIRING", "solution.euler_riemann", lambda: ref_wiring(check, proj))
+    # premises of the statement's other factors.  'x high-order integrators': the explicit
+    # integrators must reach their nominal order, otherwise the time error caps the observed order
+    # (same exact-rational obligations as C05).  'every upwind flux ... rarefactions': the HLL-type
+    # wave-speed estimates must contain the one-sided characteristic speeds (Einfeldt), otherwise a
+    # transonic rarefaction is captured as an expansion shock and the L1 error stalls (same
+    # obligation as C10 WAVE-ENCLOSE).
+    check.guarded("INTEG-ORDER", "integration", lambda: integ_order(check, proj))
+    from .c10 import enclose
+    n0 = len(check.obs)
+    check.guarded("WAVE-ENCLOSE", "numflux", lambda: enclose(check, proj))
+    check.obs[n0:] = [o for o in check.obs[n0:] if "shallowwater" not in o.construct]
